@@ -314,6 +314,24 @@ func (r *clusterRunner) validate(label string) {
 	battery := append([]*Search(nil), r.c.Battery...)
 	battery = append(battery, &Search{Q: &model.Q{Op: "all"}, From: 0, To: math.MaxInt64, Size: 100000, Desc: true, WithTotal: true},
 		&Search{Q: &model.Q{Op: "all"}, From: 0, To: math.MaxInt64, Size: 100000, Desc: false, WithTotal: true})
+	if r.c.Property == "C05" && len(battery) > 0 {
+		// a page whose end (offset + size) does not fit an integer: the request cannot be honoured, it must be
+		// refused - and every store must still be there afterwards
+		s := battery[0]
+		_, _, _, err := r.ing.Search(context.Background(), toProxyReq(s, 1+int(r.c.Seed%7), math.MaxInt, true), querytracer.New(false, ""))
+		r.logf("%s: page with offset+size beyond the integer range -> %v", label, err)
+		for _, st := range r.stores {
+			if !st.Node.Alive() {
+				r.violate("process_died", "%s: store %s died on a search whose offset+size overflows: %s", label, st.Node.Name, st.Node.Note())
+				return
+			}
+		}
+		if err == nil {
+			r.violate("search_result", "%s: a page whose end does not fit an integer was answered instead of refused", label)
+			return
+		}
+		r.s.Probe("page_end_overflow_refused")
+	}
 	for qi, s := range battery {
 		want := r.corpus.Matching(s.Q, s.From, s.To, s.Desc)
 		// 1. one request for everything (limited by the search's own size)
